@@ -301,7 +301,8 @@ void ac_trie_prepare(trie * a) {
 	}
 
 	// Create a buffer to use
-	char buffer[a->capacity];
+	// (the deepest node writes two terminators beyond its own depth)
+	char buffer[a->capacity + 2];
 
 	ac_trie_node_prepare(a, 0, buffer, 0, 0);
 }
